@@ -139,7 +139,7 @@ def check_instance(inst, wd, workers=8, timeout=900, replay=True):
         raise ToolError("TLC timed out on %s" % mod)
     if r["error"] and not r["violated"]:
         raise ToolError("TLC error on %s: %s (see %s)" % (mod, r["error"], r["out"]))
-    for tag in ("PANIC", "MONERR", "NOSTUTTER"):
+    for tag in ("PANIC", "MONERR", "NOSTUTTER") + tuple(inst.get("extra_tags", ())):
         f = os.path.join(wd, mod + "." + tag.lower() + ".ndjson")
         res["n_" + tag.lower()] = extract_prints(r["out"], tag, f)
         res[tag.lower() + "_file"] = f
